@@ -583,6 +583,7 @@ class AbsTok:
 
     def __gt__(s, eps):
         # loop condition `h_0 > eps`: true once (one Newton step is taken), then false (exit condition holds)
+        s.state.setdefault('eps_seen', []).append(eps)
         s.state['tests'] += 1
         return s.state['tests'] == 1
 
@@ -631,6 +632,13 @@ def run_gt_time(cfg):
         b._offsets = (SReal(off) if mc else 0,)
         b._h = lambda t, idx: HTok(rv(t))
         SReal.__sub__ = ssub
+        # the threshold is configuration: read when the support is computed, not when the module was imported.  It is
+        # changed here, after the module has been loaded, to a marker value; the search must compare with the marker.
+        cfgmod = ns['config']
+        thr0 = cfgmod.EFFECTIVE_SUPPORT_THRESHOLD
+        marker = thr0 * 0.123456789
+        state['eps_seen'] = []
+        cfgmod.EFFECTIVE_SUPPORT_THRESHOLD = marker
         try:
             lo, hi = b._calculate_temp_support(0)
         except Exception as e:
@@ -638,8 +646,16 @@ def run_gt_time(cfg):
             return ('exception', '%s: %s' % (type(e).__name__, e))
         finally:
             SReal.__sub__ = _ssub
+            cfgmod.EFFECTIVE_SUPPORT_THRESHOLD = thr0
         if not state['evaluated']:
             return ('exception', 'no exit condition evaluated')
+        for e_ in state['eps_seen']:
+            try:
+                ev = float(e_)
+            except Exception:
+                ev = None
+            if ev is None or abs(ev - marker) > 1e-12 * marker:
+                return ('late_threshold', 'the support search compares |h| with %r although config.EFFECTIVE_SUPPORT_THRESHOLD is %r at the time of the call (a value bound when the module was loaded)' % (e_, marker))
         p = state['evaluated'][-1]          # the sample at which the code checked |h(p)| <= threshold on exit
         mode_t = rv(order - 1) / a + off    # the envelope of h(t) = env(t - offset) peaks at t = (n-1)/alpha + offset
         # beyond p the envelope is <= threshold provided p lies beyond the mode; the advertised last sample must reach p
@@ -651,7 +667,7 @@ def run_gt_time(cfg):
             continue
         ob += 1
         if res[0] != 'ok':
-            viol.append(dict(kind='gt_time', order=order, mc=mc, what=res[1], **{'class': 'gt_time/exception'}))
+            viol.append(dict(kind='gt_time', order=order, mc=mc, what=res[1], late_threshold=res[0] == 'late_threshold', **{'class': 'gt_time/' + res[0]}))
             continue
         r, s2 = nra_check(list(ctx.solver.assertions()) + [z3.Or(res[1])], timeout_ms=60000)
         if r == 'sat':
@@ -1010,7 +1026,7 @@ def run_config(cfg):
 def replay(w):
     import numpy as np
     from pydrobert.speech import filters, config
-    thr = config.EFFECTIVE_SUPPORT_THRESHOLD
+    thr = _thr_at_entry = config.EFFECTIVE_SUPPORT_THRESHOLD
     k = w['kind']
     try:
         if k == 'dtype':
@@ -1021,6 +1037,9 @@ def replay(w):
             return {'reproduced': np.isrealobj(h) != bool(b.is_real), 'detail': 'impulse response dtype %s, is_real=%s' % (h.dtype, b.is_real)}
         if k == 'gt_time':
             worst = (0.0, None)
+            if w.get('late_threshold'):
+                # the threshold is lowered after the import, before the bank is built (restored by the caller below)
+                thr = config.EFFECTIVE_SUPPORT_THRESHOLD = thr / 25.0
             for sc in ('mel', 'bark'):
                 b = filters.ComplexGammatoneFilterBank(sc, num_filts=8, low_hz=60.0, sampling_rate=8000, order=w['order'], max_centered=w['mc'])
                 for i in range(b.num_filts):
@@ -1127,4 +1146,6 @@ def replay(w):
             return {'reproduced': False, 'detail': 'supports straddle / start at 0'}
     except Exception as e:
         return {'reproduced': True, 'detail': 'real bank raised %s: %s' % (type(e).__name__, e)}
+    finally:
+        config.EFFECTIVE_SUPPORT_THRESHOLD = _thr_at_entry
     return {'reproduced': False, 'detail': '?'}
